@@ -36,6 +36,9 @@ CLAIMS = {
  "C11": ("property-based fault injection: generated (phase, in-flight traffic, way of ending) vs bounded-time release oracle (rapid)",
          "For each generated point of the exchange, traffic pattern and way of ending, the harness observes within 5 s: end-of-stream at the remote desktop host, closure of the client-facing connections by the gateway, no goroutine left inside the protocol package, the exported connection registry back to its size, the websocket/legacy gauges restored. In-process (goroutines, registry) and real binary (/metrics gauges, go_goroutines).",
          "4 C11"),
+ "C13": ("stateful (model-based) property-based testing of browser sessions against the real binary + fake OpenID provider with fault switches (rapid)",
+         "A model says which cookie jar is authenticated (only a callback with a state this instance issued, an exchangeable code and an ID token that verifies and names a user); after every generated action GET /connect must answer 200 with a connection file iff the model says so, with the user name of the claim. Faults are injected at every point of the callback; cookies are mutated or taken from an instance with other keys. The thorough tier adds a real 125 s wait for the state expiry.",
+         "4 C13"),
  "C14": ("stateful property-based testing against a reference NTLMv2 verifier (session-challenge model) with an independent NTLMv2 message builder (rapid)",
          "Generated interleavings of negotiate, authenticate, replay and garbage messages over several sessions are applied to the repository's NTLM verifier; for every authenticate the harness recomputes, from the configured database only, HMAC_MD5(NTOWFv2(db[named user]), challenge of this session || blob): Authenticated must imply that equality (and the returned name), and a correct exchange must authenticate. The verifier package is tested in-process; the rdpgw-auth binary itself cannot be built here (PAM headers).",
          "4 C14"),
